@@ -10,6 +10,53 @@ import traceback
 from vf import core
 
 
+def descendants(pid):
+    kids, out = {}, []
+    for d in os.listdir("/proc"):
+        if d.isdigit():
+            try:
+                stat = open("/proc/%s/stat" % d).read()
+                kids.setdefault(int(stat.rsplit(")", 1)[1].split()[1]), []).append(int(d))
+            except OSError:
+                pass
+    todo = [pid]
+    while todo:
+        for k in kids.get(todo.pop(), []):
+            out.append(k)
+            todo.append(k)
+    return out
+
+
+def watchdog(ctx, tier):
+    """A change to the code can make an implementation call the check performs never return (a loop whose counter no longer
+    advances ...).  The check then must not hang: after the limit it reports that the property is no longer shown to hold,
+    names where the main thread is stuck, kills its child processes and exits 1."""
+    import signal
+    import threading
+    limit = int(os.environ.get("VERIF_TIMEOUT") or (2400 if tier == "quick" else 10800))
+
+    def fire():
+        frames = sys._current_frames()
+        main_id = threading.main_thread().ident
+        stack = "".join(traceback.format_stack(frames[main_id])[-12:]) if main_id in frames else ""
+        ctx.violation("the check did not finish within %d s: a call it makes into the implementation (or its own child process) does not "
+                      "return - non-termination; the main thread is in: %s" % (limit, stack.strip().splitlines()[-2:] if stack else "?"),
+                      dict(kind="timeout", limit_s=limit, correspondence="the check's own run (watchdog in tools/vf/main.py)", main_thread_stack=stack), no_input=True)
+        try:
+            ctx.finish()
+        finally:
+            for k in descendants(os.getpid()):
+                try:
+                    os.kill(k, signal.SIGKILL)
+                except OSError:
+                    pass
+            sys.stdout.flush()
+            os._exit(1)
+    t = threading.Timer(limit, fire)
+    t.daemon = True
+    t.start()
+
+
 def main(argv=None):
     ap = argparse.ArgumentParser()
     ap.add_argument("pid")
@@ -23,6 +70,7 @@ def main(argv=None):
         obj = json.load(open(args.replay))
         return mod.replay(obj)
     ctx = core.Ctx(pid, args.tier, seed)
+    watchdog(ctx, args.tier)
     try:
         mod.run(ctx)
     except Exception as e:  # the harness itself broke: fail closed
